@@ -2,7 +2,7 @@
 # Builds the verification harness against /repo (offline) and checks the tools.
 set -e
 export GOFLAGS=-mod=mod GOPROXY=off GOSUMDB=off GOTOOLCHAIN=local
-cd /verif
+cd "$(dirname "$0")"
 python3 - <<'PY'
 import sys
 sys.path.insert(0, 'tools')
